@@ -164,6 +164,56 @@ func checkC19(c *core.Ctx) {
 	st := core.BFS[c19Ev](c, sys, depth, "bfs/")
 	c.Note("BFS over %d events per state to depth %d: %d states (total,correct), %d transitions, per depth %v", len(sys.events), depth, st.States, st.Transitions, st.PerDepth)
 
+	// single large batches: every (matches k, batch size n) pair, n up to 64
+	// (thorough 160), matched positions first / last / spread
+	maxN := 64
+	if c.Thorough() {
+		maxN = 160
+	}
+	for n := 1; n <= maxN; n++ {
+		n := n
+		c.Case(fmt.Sprintf("large/n%d", n), n > 1, func() core.Verdict {
+			for k := 0; k <= n; k++ {
+				for layout := 0; layout < 3; layout++ {
+					p, t := make([]float64, n), make([]float64, n)
+					for i := 0; i < n; i++ {
+						p[i], t[i] = float64(i%3), float64(i%3)+1
+					}
+					for j := 0; j < k; j++ {
+						pos := j
+						switch layout {
+						case 1:
+							pos = n - 1 - j
+						case 2:
+							pos = (j * 7) % n
+							for t[pos] == p[pos] {
+								pos = (pos + 1) % n
+							}
+						}
+						t[pos] = p[pos]
+					}
+					m := metrics.NewAccuracy()
+					if err, _ := c19Apply(m, c19Ev{Kind: "batch", P: p, T: t}); err != nil {
+						return core.Fail("Accumulate of a batch of %d: %v", n, err)
+					}
+					r, _ := m.Result()
+					if r != float64(k)/float64(n) {
+						return core.Fail("one batch of %d positions with %d matches: Result %v, expected %d/%d = %v", n, k, r, k, n, float64(k)/float64(n))
+					}
+					// the same data split in two at every cut point of a coarse grid
+					for cut := 1; cut < n; cut += 1 + n/8 {
+						m2 := metrics.NewAccuracy()
+						c19Apply(m2, c19Ev{Kind: "batch", P: p[:cut], T: t[:cut]})
+						c19Apply(m2, c19Ev{Kind: "batch", P: p[cut:], T: t[cut:]})
+						if r2, _ := m2.Result(); r2 != r {
+							return core.Fail("%d positions, %d matches: Result %v as one batch but %v split at %d", n, k, r, r2, cut)
+						}
+					}
+				}
+			}
+			return core.Pass()
+		})
+	}
 	// partition invariance: every label-pair sequence of length <= n and every
 	// one of its 2^(n-1) consecutive partitions into batches
 	maxLen := 5
